@@ -386,7 +386,7 @@ def run_check(mod, tier, seed):
     else:
         for thm in theorems:
             ctx.obligation(f'theorem:{thm}', False, 'proof module did not build')
-    hits = forbidden_hits(lean_targets + ([getattr(mod, 'DRIVER_ROOT', None)] if getattr(mod, 'DRIVER_ROOT', None) else []))
+    hits = forbidden_hits(lean_targets + ([getattr(mod, 'DRIVER_ROOT', None)] if getattr(mod, 'DRIVER_ROOT', None) else []) + list(getattr(mod, 'EXTRA_ROOTS', [])))
     ctx.obligation('audit:no-sorry-axiom-native_decide', not hits, '; '.join(hits[:10]))
     if tier == 'thorough' and built_ok and not os.environ.get('VERIF_NO_LEANCHECKER'):
         with lake_lock():
@@ -525,6 +525,34 @@ def finish(ctx, mod, stream_error=None):
           f'{ctx.disagreements_checked} model/impl comparisons, {len(ctx.disagreements)} disagreements, '
           f'{len(ctx.witnesses)} witnesses ({len(unknown)} unlisted), {ctx.elapsed():.1f}s -> exit {exit_code}')
     return exit_code
+
+
+def attach_extension(g, ext):
+    """Merge an extension module (harness/props/cNNx.py: further Lean targets, theorems, a second driver and its streams) into the
+    property module whose globals() are `g`."""
+    g['LEAN_TARGETS'] = list(g.get('LEAN_TARGETS', [])) + [t for t in ext.LEAN_TARGETS if t not in g.get('LEAN_TARGETS', [])]
+    g['THEOREMS'] = list(g.get('THEOREMS', [])) + [t for t in ext.THEOREMS if t not in g.get('THEOREMS', [])]
+    g['EXTRA_TARGETS'] = list(g.get('EXTRA_TARGETS', [])) + [t for t in ext.EXTRA_TARGETS if t not in g.get('EXTRA_TARGETS', [])]
+    g['EXTRA_ROOTS'] = list(g.get('EXTRA_ROOTS', [])) + list(getattr(ext, 'EXTRA_ROOTS', []))
+    g['GEN'] = list(g.get('GEN', [])) + [t for t in getattr(ext, 'GEN', []) if t not in g.get('GEN', [])]
+    base_streams = g['streams']
+    base_replay = g.get('replay')
+
+    def streams(ctx):
+        base_streams(ctx)
+        try:
+            ext.streams(ctx)
+        except Infra as exc:        # e.g. the extension driver did not build on this tree: a broken obligation, not an infrastructure failure
+            ctx.broken.append(f'correspondence: extension streams of {ext.__name__} could not run: {exc}')
+
+    def replay(witness):
+        if hasattr(ext, 'replay'):
+            res = ext.replay(witness)
+            if res is not None:
+                return res
+        return base_replay(witness) if base_replay else False
+    g['streams'] = streams
+    g['replay'] = replay
 
 
 def run_extract_only():
